@@ -296,6 +296,7 @@ def handle (s : S) : List String → S × String
     | none, some d => (s, s!"diff {d}")
     | _, _ => (s, "ok")
   | ["end", how, parked] =>
+    if how.startsWith "stuck" then (s, s!"diff a goroutine blocked outside the controller's view ({how}): the instrumentation does not cover this code") else
     match specEnd s how parked with
     | some v => (s, s!"specviol {v}")
     | none =>
